@@ -66,13 +66,17 @@ func vh_C18_L1_closed_stream_write() {
 // C18.L2: blocking-write gate. With BlockWrite a second write waits until the pending
 // queue has been handed to the transmission queue; a deadline makes it fail without effect.
 func vh_C18_L2_block_write_gate() {
-	a, _ := vNewAssocOpts(vAssocOpts{blockWrite: true})
+	a, _ := vNewAssocOpts(vAssocOpts{blockWrite: true, interleaving: vPick(2) == 1})
 	s, err := a.OpenStream(1, PayloadTypeWebRTCBinary)
 	vassert(err == nil, "open stream")
+	// the stream has carried any number of messages before (sequence numbers anywhere, wraps included)
+	s.sequenceNumber = nondetU16()
+	s.nextOrderedMID, s.nextUnorderedMID = nondetU32(), nondetU32()
+	s.SetReliabilityParams(vPick(2) == 1, ReliabilityTypeReliable, 0)
 	n, werr := s.WriteSCTP(nondetBytes(2), PayloadTypeWebRTCBinary)
 	vassert(werr == nil && n == 2, "first write accepted")
 	vassert(a.writePending, "the gate is closed while data is pending")
-	ssn, buffered := s.sequenceNumber, s.BufferedAmount()
+	ssn, omid, umid, buffered := s.sequenceNumber, s.nextOrderedMID, s.nextUnorderedMID, s.BufferedAmount()
 	switch vPick(2) {
 	case 0:
 		// deadline already passed: the second write must fail and leave no trace
@@ -80,7 +84,7 @@ func vh_C18_L2_block_write_gate() {
 		n, werr = s.WriteSCTP(nondetBytes(3), PayloadTypeWebRTCBinary)
 		vassert(werr != nil && n == 0, "a blocking write that hits its deadline fails")
 		vassert(a.pendingQueue.size() == 1, "the failed write queues nothing")
-		vassert(s.sequenceNumber == ssn && s.BufferedAmount() == buffered, "the failed write restores sequence number and buffered amount")
+		vassert(s.sequenceNumber == ssn && s.nextOrderedMID == omid && s.nextUnorderedMID == umid && s.BufferedAmount() == buffered, "the failed write restores sequence number, message identifiers and buffered amount (at every value, wraps included)")
 		vcover("deadline")
 	case 1:
 		// the writer drains the pending queue: the gate opens exactly then
